@@ -267,6 +267,7 @@ struct Runner
     TraceSink& sink;
     std::function<Solver*()> make;
     std::function<ll()> op_probe;  // digest of op * w for a fixed w (operator behaviour probe); may be empty
+    std::function<void()> op_reshift;  // shift classes: someone else uses the operator object with ANOTHER shift and puts the solver's shift back
     bool lanczos;
     int meas;      // 0 none, 1 FacDone/CompressV/FacInit, 2 also every FacStep
     bool measconv; // measure iterated-operator residual of flagged pairs at every NumConv
@@ -649,6 +650,19 @@ struct Runner
                 sink.enabled = true;
                 Line l("OpProbe");
                 l.i("dg", dgt);
+                out().put(l);
+            }
+            return;
+        }
+        if (tok == "S")
+        {
+            // token S: set_shift(another shift); set_shift(the solver's shift) on the operator object itself - its behaviour must be unchanged
+            if (op_reshift)
+            {
+                sink.enabled = false;
+                op_reshift();
+                sink.enabled = true;
+                Line l("Reshift");
                 out().put(l);
             }
             return;
